@@ -48,6 +48,28 @@ def loop (fl : Cfg → List CheckResult → Nat → CheckResult → Bool) (cfg :
 def reports (cfg : Cfg) (agreed : List CheckResult) : List (List CheckResult) :=
   loop flush cfg agreed [] 0
 
+/-- the loop of `Reports` with a report encoder that fails on its `failAt`-th call (1-based, 0 = never): `k` calls were
+made so far, `acc` are the reports appended so far; a failing call returns what was appended before it together with an
+error (`true`), exactly like `return reports, fmt.Errorf(…)` in the two places `getReportFromPerformables` is called -/
+def loopE (cfg : Cfg) (failAt : Nat) :
+    List CheckResult → List CheckResult → Nat → Nat → List (List CheckResult) → List (List CheckResult) × Bool
+  | [], cur, _, k, acc =>
+    if cur.length > 0 then (if k + 1 = failAt then (acc, true) else (acc ++ [cur], false)) else (acc, false)
+  | r :: rs, cur, gas, k, acc =>
+    if flush cfg cur gas r then
+      if k + 1 = failAt then (acc, true)
+      else loopE cfg failAt rs [r] (r.gas + cfg.overhead) (k + 1) (acc ++ [cur])
+    else loopE cfg failAt rs (cur ++ [r]) (gas + r.gas + cfg.overhead) k acc
+
+/-- `Reports` as a call: the returned reports and whether an error was returned -/
+def reportsCall (cfg : Cfg) (agreed : List CheckResult) (failAt : Nat) : List (List CheckResult) × Bool :=
+  loopE cfg failAt agreed [] 0 0 []
+
+/-- what the encoder was handed, call by call (the failing call included) -/
+def encoderCalls (cfg : Cfg) (agreed : List CheckResult) (failAt : Nat) : List (List CheckResult) :=
+  let all := reports cfg agreed
+  if failAt = 0 then all else all.take failAt
+
 def reportsOld (cfg : Cfg) (agreed : List CheckResult) : List (List CheckResult) :=
   loop flushOld cfg agreed [] 0
 
